@@ -17,6 +17,7 @@ RULE = ("Literal contents: strings over an alphabet with the other quote, backsl
         "returned group has exactly the literal's value and type (repr-equal for floats); (iii) a salt written with ' or \" "
         "gives identical assignments over 64 units x 16 groups, minimally different salts give different ones. Non-trivial = "
         "literal that is not a plain lower-case word or a small int; distinct by literal.")
+RULE += (' Since round 7: integer literals of up to 4300 digits; unhashable values asked about membership in literal tuples.')
 ASSUMPTIONS = [
     "decimal literals large enough to overflow a double and ints beyond CPython's int<->str digit limit are outside the bound",
     "string literals contain no line-break character and not their own delimiter (the language has no escapes)",
